@@ -445,6 +445,9 @@ func okParamList(nodes []ast.Node) (*token.Token, bool) {
 	l := len(nodes)
 	log.Debugf("okParamList: %d: %#v", l, nodes)
 	for i, n := range nodes {
+		if n == nil { // a parameter that failed to parse (its error is already recorded).
+			return nil, false
+		}
 		last := i == l-1
 		t := n.Value()
 		if last && t.Type() == token.DOTDOT {
@@ -467,6 +470,9 @@ func (p *Parser) parseLambdaMulti(left ast.Node, more ...ast.Node) ast.Node {
 	}
 	t, ok := okParamList(lambda.Parameters)
 	if !ok {
+		if t == nil {
+			return nil // error already recorded when that parameter failed to parse.
+		}
 		errLine, lineNum := p.ErrorLine(false)
 		p.errors = append(p.errors, fmt.Sprintf("%d: lambda parameters must be identifiers, not %s\n%s",
 			lineNum, t.Literal(), errLine))
